@@ -484,3 +484,535 @@ Proof.
     intros I. apply impl_on_path in I. destruct I as [P C]. split; [exact C|].
     exists r. split; [reflexivity|exact P].
 Qed.
+
+(* ====================================================================== *)
+(* fuel: acyclic directions need no more fuel than their number of nodes + 1,
+   and at transaction level the fuel is irrelevant once it is enough *)
+
+Lemma filter_length_lt : forall (A : Type) (p q : A -> bool) (a : A) l,
+  (forall x, p x = true -> q x = true) -> In a l -> q a = true -> p a = false ->
+  (length (filter p l) < length (filter q l))%nat.
+Proof.
+  intros A p q a l PQ. induction l as [|x l IH]; intros I Qa Pa; [contradiction|].
+  assert (LE : forall l', (length (filter p l') <= length (filter q l'))%nat).
+  { induction l' as [|y l' IH']; cbn [filter]; [lia|].
+    destruct (p y) eqn:Py; [rewrite (PQ _ Py); cbn [length]; lia|].
+    destruct (q y); cbn [length]; lia. }
+  cbn [filter]. destruct I as [I|I].
+  - subst x. rewrite Pa, Qa. cbn [length]. specialize (LE l). lia.
+  - specialize (IH I Qa Pa). destruct (p x) eqn:Px; [rewrite (PQ _ Px); cbn [length]; lia|].
+    destruct (q x); cbn [length]; lia.
+Qed.
+
+Lemma edges_of_node : forall g k e, In e (edges_of g k) -> exists n, In n (nodes g) /\ fst n = k.
+Proof.
+  intros g k e I. unfold edges_of, find_node in I.
+  destruct (find (fun n => fst n =? k) (nodes g)) as [n|] eqn:F; [|contradiction].
+  apply find_some in F. destruct F as [Fin Fk]. apply Z.eqb_eq in Fk. exists n. auto.
+Qed.
+
+Lemma crank_ranked : forall g rk, ranked g rk -> ranked g (crank g rk).
+Proof.
+  intros g rk R k c t I. pose proof (R _ _ _ I) as L.
+  destruct (edges_of_node _ _ _ I) as [n [Nin Nk]]. unfold crank.
+  apply (filter_length_lt _ _ _ n); [| exact Nin | |].
+  - intros x H. apply Nat.leb_le in H. apply Nat.leb_le. lia.
+  - rewrite Nk. apply Nat.leb_le. lia.
+  - rewrite Nk. apply Nat.leb_gt. lia.
+Qed.
+
+Lemma crank_bound : forall g rk k, (crank g rk k < S (length (nodes g)))%nat.
+Proof.
+  intros g rk k. unfold crank.
+  assert (LE : forall (p : key * list edge -> bool) l, (length (filter p l) <= length l)%nat).
+  { intros p l. induction l as [|x l IH]; cbn [filter length]; [lia|].
+    destruct (p x); cbn [length]; lia. }
+  specialize (LE (fun n => Nat.leb (rk (fst n)) (rk k)) (nodes g)). lia.
+Qed.
+
+Lemma acyclic_dir_ok : forall g fuel,
+  acyclic g -> (length (nodes g) < fuel)%nat -> dir_ok fuel g.
+Proof.
+  intros g fuel [rk R] L. exists (crank g rk). split; [apply crank_ranked; exact R|].
+  intros k. pose proof (crank_bound g rk k). lia.
+Qed.
+
+Lemma dir_ok_mono : forall f1 f2 g, (f1 <= f2)%nat -> dir_ok f1 g -> dir_ok f2 g.
+Proof. intros f1 f2 g L [rk [R B]]. exists rk. split; [exact R|]. intros k. specialize (B k). lia. Qed.
+
+Lemma flow_ok_mono : forall f1 f2 f, (f1 <= f2)%nat -> flow_ok f1 f -> flow_ok f2 f.
+Proof. intros f1 f2 f L [A B]. split; eapply dir_ok_mono; eauto. Qed.
+
+Lemma sel_ok_mono : forall f1 f2 s, (f1 <= f2)%nat -> sel_ok f1 s -> sel_ok f2 s.
+Proof.
+  intros f1 f2 s L [A [B C]].
+  repeat split; eapply Forall_impl; try eassumption; intros f; apply flow_ok_mono; exact L.
+Qed.
+
+Lemma fuel_for_bound : forall fs f, In f fs ->
+  (length (nodes (freq f)) < fuel_for fs)%nat /\ (length (nodes (fres f)) < fuel_for fs)%nat.
+Proof.
+  intros fs f. unfold fuel_for. induction fs as [|g fs IH]; intros I; [contradiction|].
+  cbn [fold_right]. destruct I as [I|I]; [subst g; lia|]. specialize (IH I). lia.
+Qed.
+
+Lemma acyclic_flow_ok : forall fs f, In f fs -> flow_acyclic f -> flow_ok (fuel_for fs) f.
+Proof.
+  intros fs f I [A B]. destruct (fuel_for_bound fs f I) as [L1 L2].
+  split; apply acyclic_dir_ok; assumption.
+Qed.
+
+Lemma acyclic_sel_ok : forall fs s,
+  incl (sel_flows s) fs -> Forall flow_acyclic (sel_flows s) -> sel_ok (fuel_for fs) s.
+Proof.
+  intros fs s I A. unfold sel_flows in *. rewrite Forall_forall in A.
+  assert (G : forall f, In f (s_start s ++ s_user s ++ s_end s) -> flow_ok (fuel_for fs) f).
+  { intros f F. apply acyclic_flow_ok; [apply I|apply A]; exact F. }
+  repeat split; apply Forall_forall; intros f F; apply G.
+  - apply in_or_app. left. exact F.
+  - apply in_or_app. right. apply in_or_app. left. exact F.
+  - apply in_or_app. right. apply in_or_app. right. exact F.
+Qed.
+
+Lemma flows_named_incl : forall fs ns, incl (flows_named fs ns) fs.
+Proof.
+  intros fs ns f I. unfold flows_named in I. apply in_flat_map in I. destruct I as [n [_ I]].
+  destruct (find (fun f0 => fname f0 =? n) fs) as [f0|] eqn:F; [|contradiction].
+  destruct I as [I|[]]. subst f0. apply find_some in F. apply F.
+Qed.
+
+Lemma dec_sel_incl : forall fs e, incl (sel_flows (dec_sel fs e)) fs.
+Proof.
+  intros fs [[a u] z] f I. unfold sel_flows, dec_sel in I. cbn [s_start s_user s_end] in I.
+  apply in_app_or in I. destruct I as [I|I]; [eapply flows_named_incl; eauto|].
+  apply in_app_or in I. destruct I as [I|I]; eapply flows_named_incl; eauto.
+Qed.
+
+(* ---- fuel irrelevance ---- *)
+
+Lemma starts_ext : forall (r1 r2 : key -> list ev * outcome) ts,
+  (forall t, r1 t = r2 t) -> starts_impl r1 ts = starts_impl r2 ts.
+Proof.
+  intros r1 r2 ts H. induction ts as [|t ts IH]; cbn [starts_impl]; [reflexivity|].
+  rewrite H, IH. reflexivity.
+Qed.
+
+Lemma exec_impl_fuel_le : forall g gr d beh f1 f2 k,
+  dir_ok f1 g -> (f1 <= f2)%nat -> exec_impl g gr d beh f1 k = exec_impl g gr d beh f2 k.
+Proof.
+  intros g gr d beh f1 f2 k [rk [R B]] L.
+  apply (ranked_fuel_irrelevant g gr d beh rk R); [apply B|]. specialize (B k). lia.
+Qed.
+
+Lemma flow_fuel_le : forall f1 f2 f d start beh,
+  flow_ok f1 f -> (f1 <= f2)%nat ->
+  exec_flow_impl f1 f d start beh = exec_flow_impl f2 f d start beh.
+Proof.
+  intros f1 f2 f d start beh [Oq Os] L.
+  assert (G : dir_ok f1 (gdir f d)) by (destruct d; assumption).
+  unfold exec_flow_impl. destruct start as [k|].
+  - apply starts_ext. intros t. apply exec_impl_fuel_le; assumption.
+  - destruct (root (gdir f d)); [apply exec_impl_fuel_le; assumption|reflexivity].
+Qed.
+
+Section FuelLe.
+  Variable f1 f2 : nat.
+  Variable beh : oracles.
+  Hypothesis L : (f1 <= f2)%nat.
+
+  Lemma run_list_fuel_le : forall d fs,
+    Forall (flow_ok f1) fs -> run_list f1 beh d fs = run_list f2 beh d fs.
+  Proof.
+    intros d fs H. induction H as [|f fs F _ IH]; cbn [run_list]; [reflexivity|].
+    rewrite (flow_fuel_le f1 f2 f d None _ F L), IH. reflexivity.
+  Qed.
+
+  Lemma run_users_req_fuel_le : forall fs,
+    Forall (flow_ok f1) fs -> run_users_req f1 beh fs = run_users_req f2 beh fs.
+  Proof.
+    intros fs H. induction H as [|f fs F _ IH]; cbn [run_users_req]; [reflexivity|].
+    rewrite (flow_fuel_le f1 f2 f Req None _ F L), IH. reflexivity.
+  Qed.
+
+  Lemma run_users_res_fuel_le : forall sc fs,
+    Forall (flow_ok f1) fs -> run_users_res f1 beh sc fs = run_users_res f2 beh sc fs.
+  Proof.
+    intros sc fs H. induction H as [|f fs F _ IH]; cbn [run_users_res]; [reflexivity|].
+    rewrite (flow_fuel_le f1 f2 f Res _ _ F L), IH. reflexivity.
+  Qed.
+
+  Lemma run_res_fuel_le : forall s sc,
+    sel_ok f1 s -> run_res f1 beh s sc = run_res f2 beh s sc.
+  Proof.
+    intros s sc [A [U Z]]. unfold run_res.
+    rewrite (run_list_fuel_le Res _ (Forall_rev A)), (run_users_res_fuel_le sc _ (Forall_rev U)),
+            (run_list_fuel_le Res _ (Forall_rev Z)). reflexivity.
+  Qed.
+
+  Lemma run_req_fuel_le : forall s s2,
+    sel_ok f1 s -> (forall s', s2 = Some s' -> sel_ok f1 s') ->
+    run_req f1 beh s s2 = run_req f2 beh s s2.
+  Proof.
+    intros s s2 [A [U Z]] S2. unfold run_req.
+    rewrite (run_list_fuel_le Req _ A), (run_users_req_fuel_le _ U), (run_list_fuel_le Req _ Z).
+    destruct s2 as [s'|].
+    - assert (E : forall sc, run_res f1 beh s' sc = run_res f2 beh s' sc)
+        by (intros sc; apply run_res_fuel_le; apply S2; reflexivity).
+      destruct (run_users_req f2 beh (s_user s)) as [[t2 [h|]] e2]; [rewrite E|]; reflexivity.
+    - reflexivity.
+  Qed.
+End FuelLe.
+
+Lemma run_req_fuel_irrelevant : forall f1 f2 beh s s2,
+  sel_ok f1 s -> sel_ok f2 s ->
+  (forall s', s2 = Some s' -> sel_ok f1 s' /\ sel_ok f2 s') ->
+  run_req f1 beh s s2 = run_req f2 beh s s2.
+Proof.
+  intros f1 f2 beh s s2 A B C. destruct (Nat.le_ge_cases f1 f2) as [L|L].
+  - apply run_req_fuel_le; [exact L|exact A|]. intros s' E. apply (C s' E).
+  - symmetry. apply run_req_fuel_le; [exact L|exact B|]. intros s' E. apply (C s' E).
+Qed.
+
+Lemma run_res_fuel_irrelevant : forall f1 f2 beh s sc,
+  sel_ok f1 s -> sel_ok f2 s -> run_res f1 beh s sc = run_res f2 beh s sc.
+Proof.
+  intros f1 f2 beh s sc A B. destruct (Nat.le_ge_cases f1 f2) as [L|L].
+  - apply run_res_fuel_le; assumption.
+  - symmetry. apply run_res_fuel_le; assumption.
+Qed.
+
+(* ====================================================================== *)
+(* F-C04d: a transaction is abandoned only because a processor that answered
+   the request has no node on the response side of its flow (acyclic graphs) *)
+
+Lemma cut_noresp : forall gr d beh l k,
+  snd (cut gr d beh l) = NoRespNode k ->
+  exists c, In (k, c) (fst (cut gr d beh l)) /\ answers beh d k = true /\ has_node gr k = false.
+Proof.
+  intros gr d beh l k. induction l as [|[k0 c0|] l IH]; cbn [cut]; [discriminate| |discriminate].
+  destruct (answers beh d k0) eqn:A; cbn [fst snd].
+  - destruct (has_node gr k0) eqn:H; intros E; inversion E; subst k0.
+    exists c0. repeat split; auto. left. reflexivity.
+  - intros E. destruct (IH E) as [c [I [A' H]]]. exists c. repeat split; auto. right. exact I.
+Qed.
+
+Lemma flow_noresp : forall fuel f d beh k,
+  snd (exec_flow_impl fuel f d None beh) = NoRespNode k ->
+  exists c, In (k, c) (fst (exec_flow_impl fuel f d None beh))
+            /\ answers beh d k = true /\ has_node (fres f) k = false.
+Proof.
+  intros fuel f d beh k. rewrite (flow_impl_is_spec fuel f d None beh) by (left; reflexivity).
+  unfold exec_flow_spec. destruct (root (gdir f d)) as [r|]; [|discriminate].
+  apply cut_noresp.
+Qed.
+
+Lemma flow_res_outcome : forall fuel f start beh,
+  snd (exec_flow_impl fuel f Res start beh) = Done
+  \/ snd (exec_flow_impl fuel f Res start beh) = OutOfFuel.
+Proof.
+  intros fuel f start beh. rewrite (flow_impl_is_spec fuel f Res start beh) by (right; reflexivity).
+  unfold exec_flow_spec. destruct start as [k|].
+  - apply cut_res_outcome. reflexivity.
+  - destruct (root (gdir f Res)); [apply cut_res_outcome; reflexivity|left; reflexivity].
+Qed.
+
+Lemma tag_in_intro : forall f d t k c,
+  In (k, c) t -> In {| e_flow := fname f; e_key := k; e_dir := d; e_cond := c |} (tag f d t).
+Proof.
+  intros f d t k c I. unfold tag. apply in_map_iff. exists (k, c). split; [reflexivity|exact I].
+Qed.
+
+Section Dropped.
+  Variable fuel : nat.
+  Variable beh : oracles.
+
+  (* a request-direction event of flow f whose processor answered without a
+     response-side node *)
+  Definition drops (f : flow) (k : key) (t : list event) : Prop :=
+    exists c, In {| e_flow := fname f; e_key := k; e_dir := Req; e_cond := c |} t
+              /\ answers (beh (fname f)) Req k = true /\ has_node (fres f) k = false.
+
+  Lemma drops_app_l : forall f k t1 t2, drops f k t1 -> drops f k (t1 ++ t2).
+  Proof. intros f k t1 t2 [c [I R]]. exists c. split; [apply in_or_app; left; exact I|exact R]. Qed.
+  Lemma drops_app_r : forall f k t1 t2, drops f k t2 -> drops f k (t1 ++ t2).
+  Proof. intros f k t1 t2 [c [I R]]. exists c. split; [apply in_or_app; right; exact I|exact R]. Qed.
+
+  Lemma run_list_req_noresp : forall fs k,
+    snd (run_list fuel beh Req fs) = Some (NoRespNode k) ->
+    exists f, In f fs /\ drops f k (fst (run_list fuel beh Req fs)).
+  Proof.
+    intros fs k. induction fs as [|f fs IH]; cbn [run_list]; [discriminate|].
+    destruct (failed (snd (exec_flow_impl fuel f Req None (beh (fname f))))) eqn:Fl; cbn [fst snd].
+    - intros E. inversion E as [E']. destruct (flow_noresp _ _ _ _ _ E') as [c [I [A H]]].
+      exists f. split; [left; reflexivity|]. exists c. split; [apply tag_in_intro; exact I|auto].
+    - intros E. destruct (IH E) as [f' [F D]]. exists f'. split; [right; exact F|].
+      apply drops_app_r. exact D.
+  Qed.
+
+  Lemma run_list_res_outcome : forall fs o,
+    snd (run_list fuel beh Res fs) = Some o -> o = OutOfFuel.
+  Proof.
+    intros fs o. induction fs as [|f fs IH]; cbn [run_list]; [discriminate|].
+    destruct (flow_res_outcome fuel f None (beh (fname f))) as [E|E]; rewrite E; cbn [failed fst snd].
+    - exact IH.
+    - intros X. inversion X. reflexivity.
+  Qed.
+
+  Lemma run_users_res_outcome : forall sc fs o,
+    snd (run_users_res fuel beh sc fs) = Some o -> o = OutOfFuel.
+  Proof.
+    intros sc fs o. induction fs as [|f fs IH]; cbn [run_users_res]; [discriminate|].
+    match goal with |- context [exec_flow_impl fuel f Res ?st _] => set (st0 := st) end.
+    destruct (flow_res_outcome fuel f st0 (beh (fname f))) as [E|E]; rewrite E; cbn [failed fst snd].
+    - exact IH.
+    - intros X. inversion X. reflexivity.
+  Qed.
+
+  Lemma then_some : forall r rest o,
+    snd (then_ r rest) = Some o ->
+    (snd r = Some o /\ fst (then_ r rest) = fst r)
+    \/ (snd r = None /\ snd (rest tt) = Some o /\ fst (then_ r rest) = fst r ++ fst (rest tt)).
+  Proof.
+    intros r rest o. unfold then_. destruct (snd r) eqn:E.
+    - rewrite E. intros H. left. split; [exact H|reflexivity].
+    - cbn [fst snd]. intros H. right. repeat split; auto.
+  Qed.
+
+  Lemma run_res_outcome : forall s sc o, snd (run_res fuel beh s sc) = Some o -> o = OutOfFuel.
+  Proof.
+    intros s sc o H. unfold run_res in H.
+    apply then_some in H. destruct H as [[H _]|[_ [H _]]]; [eapply run_list_res_outcome; eauto|].
+    apply then_some in H. destruct H as [[H _]|[_ [H _]]]; [eapply run_users_res_outcome; eauto|].
+    eapply run_list_res_outcome; eauto.
+  Qed.
+
+  Lemma run_users_req_noresp : forall fs k,
+    snd (run_users_req fuel beh fs) = Some (NoRespNode k) ->
+    exists f, In f fs /\ drops f k (fst (fst (run_users_req fuel beh fs))).
+  Proof.
+    intros fs k. induction fs as [|f fs IH]; cbn [run_users_req]; [discriminate|].
+    destruct (snd (exec_flow_impl fuel f Req None (beh (fname f)))) eqn:O.
+    - destruct (run_users_req fuel beh fs) as [[t2 sc] e]. cbn [fst snd] in *. intros E.
+      destruct (IH E) as [f' [F D]]. exists f'. split; [right; exact F|apply drops_app_r; exact D].
+    - cbn [snd]. discriminate.
+    - cbn [fst snd]. intros E. inversion E; subst k0.
+      destruct (flow_noresp _ _ _ _ _ O) as [c [I [A H]]].
+      exists f. split; [left; reflexivity|]. exists c. split; [apply tag_in_intro; exact I|auto].
+    - cbn [snd]. discriminate.
+  Qed.
+
+  Lemma drops_dropped : forall fs f k t,
+    In f fs -> drops f k t -> answer_dropped beh fs t = true.
+  Proof.
+    intros fs f k t F [c [I [A H]]]. unfold answer_dropped. apply existsb_exists.
+    eexists. split; [exact I|]. unfold dropped_event. cbn [e_dir e_flow e_key is_req].
+    rewrite A. cbn [andb]. apply existsb_exists. exists f. split; [exact F|].
+    rewrite Z.eqb_refl, H. reflexivity.
+  Qed.
+
+  Lemma run_list_failed : forall d fs o,
+    snd (run_list fuel beh d fs) = Some o -> failed o = true.
+  Proof.
+    intros d fs o. induction fs as [|f fs IH]; cbn [run_list]; [discriminate|].
+    destruct (failed (snd (exec_flow_impl fuel f d None (beh (fname f))))) eqn:Fl; cbn [snd].
+    - intros X. injection X as Y. subst o. exact Fl.
+    - exact IH.
+  Qed.
+
+  Lemma run_users_req_failed : forall fs o,
+    snd (run_users_req fuel beh fs) = Some o -> failed o = true.
+  Proof.
+    intros fs o. induction fs as [|f fs IH]; cbn [run_users_req]; [discriminate|].
+    destruct (snd (exec_flow_impl fuel f Req None (beh (fname f)))) eqn:O.
+    - destruct (run_users_req fuel beh fs) as [[t2 sc] e]. exact IH.
+    - cbn [snd]. discriminate.
+    - cbn [snd]. intros X. inversion X. reflexivity.
+    - cbn [snd]. intros X. inversion X. reflexivity.
+  Qed.
+
+  Lemma failed_cases : forall o, failed o = true -> o = OutOfFuel \/ exists k, o = NoRespNode k.
+  Proof. intros [| |k|]; try discriminate; eauto. Qed.
+
+  (* an abandoned request: the model ran out of fuel, or the answer of a processor
+     without response-side node was dropped *)
+  Lemma run_req_abandoned : forall s s2 o,
+    snd (run_req fuel beh s s2) = Some o ->
+    o = OutOfFuel
+    \/ exists k f, o = NoRespNode k /\ In f (sel_flows s) /\ drops f k (fst (run_req fuel beh s s2)).
+  Proof.
+    intros s s2 o H. unfold run_req in H |- *. unfold sel_flows.
+    apply then_some in H. destruct H as [[H E]|[N1 [H E]]]; rewrite E; clear E.
+    { destruct (failed_cases _ (run_list_failed _ _ _ H)) as [O|[k O]]; [left; exact O|]. subst o.
+      right. destruct (run_list_req_noresp _ _ H) as [f [F D]]. exists k, f.
+      split; [reflexivity|]. split; [apply in_or_app; left; exact F|exact D]. }
+    pose proof (run_users_req_noresp (s_user s)) as U.
+    pose proof (run_users_req_failed (s_user s)) as UF.
+    destruct (run_users_req fuel beh (s_user s)) as [[t2 sc] e2]. cbn [fst snd] in *.
+    apply then_some in H. cbn [fst snd] in H. destruct H as [[H E]|[N2 [H E]]]; rewrite E; clear E.
+    { subst e2. destruct (failed_cases _ (UF o eq_refl)) as [O|[k O]]; [left; exact O|]. subst o.
+      right. destruct (U k eq_refl) as [f [F D]]. exists k, f. split; [reflexivity|].
+      split; [apply in_or_app; right; apply in_or_app; left; exact F|apply drops_app_r; exact D]. }
+    apply then_some in H. destruct H as [[H E]|[N3 [H E]]]; rewrite E; clear E.
+    { destruct (failed_cases _ (run_list_failed _ _ _ H)) as [O|[k O]]; [left; exact O|]. subst o.
+      right. destruct (run_list_req_noresp _ _ H) as [f [F D]]. exists k, f.
+      split; [reflexivity|]. split; [apply in_or_app; right; apply in_or_app; right; exact F|].
+      apply drops_app_r. apply drops_app_r. exact D. }
+    left. destruct sc as [h|]; [|discriminate]. destruct s2 as [s'|]; [|discriminate].
+    eapply run_res_outcome; eauto.
+  Qed.
+
+  Notation users_prefix := (users_prefix fuel beh).
+  Notation users_prefix_text := (users_prefix_text fuel beh).
+
+  Lemma users_prefix_text_eq : forall fs,
+    snd (run_users_req fuel beh fs) = None -> users_prefix_text fs = users_prefix fs.
+  Proof.
+    induction fs as [|f fs IH]; cbn [run_users_req Spec.users_prefix_text Spec.users_prefix]; [reflexivity|].
+    rewrite (flow_impl_is_spec fuel f Req None) by (left; reflexivity).
+    fold (flow_walk fuel beh Req None f).
+    destruct (snd (flow_walk fuel beh Req None f)) eqn:O.
+    - destruct (run_users_req fuel beh fs) as [[t2 sc] e]. cbn [snd] in *. intros H. rewrite (IH H). reflexivity.
+    - reflexivity.
+    - cbn [snd]. discriminate.
+    - cbn [snd]. discriminate.
+  Qed.
+
+  Lemma req_order_text_eq : forall s s2,
+    snd (run_req fuel beh s s2) = None -> req_order_text fuel beh s s2 = req_order fuel beh s s2.
+  Proof.
+    intros s s2 H. unfold run_req in H.
+    apply then_none in H. destruct H as [_ [H _]].
+    pose proof (users_prefix_text_eq (s_user s)) as U.
+    destruct (run_users_req fuel beh (s_user s)) as [[t2 sc] e2]. cbn [snd] in U.
+    apply then_none in H. destruct H as [H _]. cbn [snd] in H.
+    unfold req_order_text, req_order. rewrite (U H). reflexivity.
+  Qed.
+
+  Lemma run_req_outside : forall s s2,
+    sel_ok fuel s -> (forall s', s2 = Some s' -> sel_ok fuel s') ->
+    answer_dropped beh (sel_flows s) (fst (run_req fuel beh s s2)) = false ->
+    run_req fuel beh s s2 = (req_order_text fuel beh s s2, None).
+  Proof.
+    intros s s2 A B D. destruct (snd (run_req fuel beh s s2)) as [o|] eqn:E.
+    - exfalso. destruct (run_req_abandoned _ _ _ E) as [O|[k [f [O [F Dr]]]]].
+      + subst o. exact (run_req_not_stuck fuel beh s s2 A B E).
+      + rewrite (drops_dropped _ _ _ _ F Dr) in D. discriminate.
+    - rewrite (req_order_text_eq _ _ E), <- (run_req_order fuel beh _ _ E), <- E.
+      destruct (run_req fuel beh s s2); reflexivity.
+  Qed.
+End Dropped.
+
+(* ====================================================================== *)
+(* clause 5, positively: the flow that handed over continues - exactly once -
+   from the response connections of the processor that answered; every other
+   user flow selected for the response lookup runs from its entry point *)
+
+Section Continue.
+  Variable fuel : nat.
+  Variable beh : oracles.
+
+  Notation flow_events := (flow_events fuel beh).
+
+  Lemma users_from_root : forall n h fs,
+    ~ In n (map fname fs) ->
+    flat_map (fun f => flow_events Res (start_for (Some (n, h)) f) f) fs
+    = flat_map (flow_events Res None) fs.
+  Proof.
+    intros n h fs. induction fs as [|f fs IH]; intros N; cbn [flat_map]; [reflexivity|].
+    cbn [map] in N. rewrite IH by (intros I; apply N; right; exact I).
+    unfold start_for. destruct (n =? fname f) eqn:E; [|reflexivity].
+    apply Z.eqb_eq in E. exfalso. apply N. left. symmetry. exact E.
+  Qed.
+
+  Lemma users_split : forall h fs f,
+    NoDup (map fname fs) -> In f fs ->
+    exists us1 us2, fs = us1 ++ f :: us2
+      /\ ~ In (fname f) (map fname us1) /\ ~ In (fname f) (map fname us2)
+      /\ flat_map (fun f' => flow_events Res (start_for (Some (fname f, h)) f') f') fs
+         = flat_map (flow_events Res None) us1 ++ flow_events Res (Some h) f
+           ++ flat_map (flow_events Res None) us2.
+  Proof.
+    intros h fs f N I. destruct (in_split _ _ I) as [us1 [us2 E]]. subst fs.
+    rewrite map_app in N. cbn [map] in N.
+    assert (N1 : ~ In (fname f) (map fname us1)).
+    { intros J. apply NoDup_remove_2 in N. apply N. apply in_or_app. left. exact J. }
+    assert (N2 : ~ In (fname f) (map fname us2)).
+    { intros J. apply NoDup_remove_2 in N. apply N. apply in_or_app. right. exact J. }
+    exists us1, us2. split; [reflexivity|]. split; [exact N1|]. split; [exact N2|].
+    rewrite flat_map_app. cbn [flat_map].
+    rewrite (users_from_root _ h us1 N1), (users_from_root _ h us2 N2).
+    unfold start_for at 1. rewrite Z.eqb_refl. reflexivity.
+  Qed.
+
+  Lemma res_order_continues : forall s' f h,
+    In f (s_user s') -> NoDup (map fname (s_user s')) ->
+    exists us1 us2, rev (s_user s') = us1 ++ f :: us2
+      /\ ~ In (fname f) (map fname us1) /\ ~ In (fname f) (map fname us2)
+      /\ res_order fuel beh s' (Some (fname f, h))
+         = flat_map (flow_events Res None) (rev (s_start s'))
+           ++ (flat_map (flow_events Res None) us1 ++ flow_events Res (Some h) f
+               ++ flat_map (flow_events Res None) us2)
+           ++ flat_map (flow_events Res None) (rev (s_end s')).
+  Proof.
+    intros s' f h I N.
+    assert (N' : NoDup (map fname (rev (s_user s')))) by (rewrite map_rev; apply NoDup_rev; exact N).
+    destruct (users_split h (rev (s_user s')) f N' (proj1 (in_rev _ _) I))
+      as [us1 [us2 [E [N1 [N2 F]]]]].
+    exists us1, us2. split; [exact E|]. split; [exact N1|]. split; [exact N2|].
+    unfold res_order. rewrite F. reflexivity.
+  Qed.
+
+  Lemma res_order_not_reselected : forall s' n h,
+    ~ In n (map fname (s_user s')) ->
+    res_order fuel beh s' (Some (n, h)) = res_order fuel beh s' None.
+  Proof.
+    intros s' n h N. unfold res_order. rewrite users_from_root.
+    - reflexivity.
+    - rewrite map_rev. intros I. apply N. apply in_rev. exact I.
+  Qed.
+
+  (* ---- system flows shaped like those of quotas ---- *)
+
+  Lemma flow_events_no_root : forall d f,
+    no_root (gdir f d) = true -> flow_events d None f = [].
+  Proof.
+    intros d f H. unfold Spec.flow_events, flow_walk, exec_flow_spec, no_root in *.
+    destruct (root (gdir f d)); [discriminate|reflexivity].
+  Qed.
+
+  Lemma group_no_root : forall d fs,
+    forallb (fun f => no_root (gdir f d)) fs = true -> flat_map (flow_events d None) fs = [].
+  Proof.
+    intros d fs. induction fs as [|f fs IH]; cbn [forallb flat_map]; [reflexivity|].
+    intros H. apply andb_true_iff in H. destruct H as [A B].
+    rewrite (flow_events_no_root d f A), (IH B). reflexivity.
+  Qed.
+
+  Lemma forallb_rev : forall (A : Type) (p : A -> bool) l, forallb p (rev l) = forallb p l.
+  Proof.
+    intros A p l. destruct (forallb p l) eqn:E.
+    - apply forallb_forall. intros x I. rewrite forallb_forall in E. apply E. apply in_rev. exact I.
+    - destruct (forallb p (rev l)) eqn:E'; [|reflexivity].
+      rewrite forallb_forall in E'. assert (X : forallb p l = true).
+      { apply forallb_forall. intros x I. apply E'. apply -> in_rev. exact I. }
+      rewrite X in E. discriminate.
+  Qed.
+
+  Lemma res_order_quota : forall s sc,
+    quota_shape s = true ->
+    res_order fuel beh s sc
+    = flat_map (fun f => flow_events Res (start_for sc f) f) (rev (s_user s))
+      ++ flat_map (flow_events Res None) (rev (s_end s)).
+  Proof.
+    intros s sc Q. unfold quota_shape in Q. apply andb_true_iff in Q. destruct Q as [A _].
+    unfold res_order. rewrite (group_no_root Res); [reflexivity|].
+    rewrite forallb_rev. exact A.
+  Qed.
+
+  Lemma req_part_quota : forall s,
+    quota_shape s = true -> flat_map (flow_events Req None) (s_end s) = [].
+  Proof.
+    intros s Q. unfold quota_shape in Q. apply andb_true_iff in Q. destruct Q as [_ B].
+    apply (group_no_root Req). exact B.
+  Qed.
+End Continue.
